@@ -7,7 +7,9 @@
 #include <pthread.h>
 
 #define ZV_MAXT 24
+#ifndef ZV_MAXSTEPS
 #define ZV_MAXSTEPS 4096
+#endif
 
 typedef enum { ZS_NONE = 0, ZS_RUN, ZS_MUTEX, ZS_COND, ZS_JOIN, ZS_DONE } zv_status;
 typedef enum { ZV_POLICY_RANDOM = 0, ZV_POLICY_NOPREEMPT = 1 } zv_policy;
@@ -28,6 +30,9 @@ typedef struct {
     /* callbacks (called with the baton held, no other thread running) */
     void (*on_step)(int step_index, int tid, int w);   /* after each step; step_index -1 = initial state */
     void (*on_stuck)(void);                              /* no enabled thread, some thread unfinished; must not return */
+    /* (appended for C11) optional policy hook, consulted after the explicit schedule prefix and before [policy]:
+     * returns the tid to run next among enabled[0..n) or -1 to fall back on [policy]; me = thread that just ran */
+    int (*choose)(int step_index, int me, const int* enabled, int n);
 } zv_params;
 
 void zv_sched_begin(const zv_params* p);   /* calling thread becomes tid 0 */
